@@ -251,7 +251,7 @@ func (k *Kernel) sleepUntil(at time.Time) {
 		k.version++
 		// The per-operation yield budget detects spinning without progress of
 		// time; polling on a ticker while the clock advances is not a spin.
-		for _, t := range k.tasks {
+		for _, t := range k.live {
 			t.YieldsOp = 0
 		}
 	}
